@@ -50,6 +50,10 @@ CLAIMED = {
          'result value equals the exact integer result and lies within the range its own digits_v / numeric_limits declare, for + - * / % unary minus, comparisons and constant shifts over pairwise digit counts, signedness mixes and narrowest types including 128-bit and wide_integer storage',
          'one listed known finding (>> of a negative value can floor to one below the symmetric lowest); the / % operand-narrowing defect was repaired (fix: commit d438fc9) and is kept as a regression',
          'DESIGN.md section 5 C05'),
+ 'C09': ('rapidcheck tie/near-tie/limit-directed sources (k + f destination units moved by 0..2 ulps) + exhaustive 8/16-bit source reps vs exact GMP rounding of the bit-exact source value',
+         'for every (source, destination, rounding tag, form) site the destination rep must be the multiple of the destination resolution the mode selects from the exact source value; float, double and long double sources are decoded bit-exactly and never touched by floating-point arithmetic in the oracle; conversions that lose no digits must be exact under every mode',
+         'six listed known findings, each an operand-defined cause region (bias sum not representable in the float type, negative float -> scaled truncation, bias overflow in the source rep, ...); 18 conversion forms that do not compile on the pinned tree are listed in uncompilable_allow.json; static_number -> static_number chains are left to C11',
+         'DESIGN.md section 5 C09'),
 }
 
 def main():
